@@ -41,6 +41,36 @@ func ids2(txns []types.V2Transaction) []types.TransactionID {
 }
 
 // checkAtomic is the all-or-nothing / known oracle.  before = pool ids before the call.
+// orderedIDs is the last observed pool as ordered id lists.
+func (g *Gen) orderedIDs() (v1, v2 []types.TransactionID) {
+	for _, t := range g.W.LastV1 {
+		v1 = append(v1, t.ID())
+	}
+	for _, t := range g.W.LastV2 {
+		v2 = append(v2, t.ID())
+	}
+	return
+}
+
+// checkUnchanged: a submission that returned an error must leave the reported pool exactly as it
+// was - every pooled transaction, in the same order - not only free of the set's new transactions.
+func (g *Gen) checkUnchanged(api, kind string, k int, b1, b2 []types.TransactionID, res string) {
+	if res != "err" || g.LooseKnown || (g.Track != nil && g.Track.PoolFull) || g.W.Panicked {
+		return
+	}
+	a1, a2 := g.orderedIDs()
+	same := len(a1) == len(b1) && len(a2) == len(b2)
+	for i := 0; same && i < len(a1); i++ {
+		same = a1[i] == b1[i]
+	}
+	for i := 0; same && i < len(a2); i++ {
+		same = a2[i] == b2[i]
+	}
+	if !same {
+		g.W.C.Oracle(api+"-error-changes-pool-"+kind, "%s returned an error (%s at position %d) but the reported pool changed: %d+%d transactions before, %d+%d after (or another order)", api, kind, k, len(b1), len(b2), len(a1), len(a2))
+	}
+}
+
 func (g *Gen) CheckAtomic(api string, kind string, k int, before map[types.TransactionID]bool, set []types.TransactionID, res string, standaloneValid bool) {
 	w := g.W
 	after := w.PoolIDs()
@@ -140,6 +170,7 @@ func copyV2(txns []types.V2Transaction) []types.V2Transaction {
 func (g *Gen) AddV2(basis int, txns []types.V2Transaction, oks []bool, kind string, k int, standalone bool) string {
 	w := g.W
 	before := w.PoolIDs()
+	b1, b2 := g.orderedIDs()
 	mine := copyV2(txns)
 	res := w.AddV2(basis, mine, oks)
 	if res == "ok" || res == "known" {
@@ -158,6 +189,7 @@ func (g *Gen) AddV2(basis int, txns []types.V2Transaction, oks []bool, kind stri
 		}
 	}
 	w.Refresh()
+	g.checkUnchanged("addv2pooltransactions", kind, k, b1, b2, res)
 	g.CheckAtomic("addv2pooltransactions", kind, k, before, ids2(txns), res, standalone)
 	if g.Track != nil {
 		if res == "ok" {
@@ -171,8 +203,10 @@ func (g *Gen) AddV2(basis int, txns []types.V2Transaction, oks []bool, kind stri
 func (g *Gen) AddV1(txns []types.Transaction, oks []bool, kind string, k int, standalone bool) string {
 	w := g.W
 	before := w.PoolIDs()
+	b1, b2 := g.orderedIDs()
 	res := w.AddV1(append([]types.Transaction(nil), txns...), oks)
 	w.Refresh()
+	g.checkUnchanged("addpooltransactions", kind, k, b1, b2, res)
 	g.CheckAtomic("addpooltransactions", kind, k, before, ids1(txns), res, standalone)
 	if g.Track != nil {
 		if res == "ok" {
@@ -700,6 +734,63 @@ func (g *Gen) FirstCall() string {
 	return "first-call-" + kind
 }
 
+// CorruptResubmit: a transaction whose id is already pooled is handed in again through all three
+// entry points that move a set from a basis to the tip, as a copy whose proofs are claimed valid
+// as of an OLDER basis and have been damaged.  A transaction id does not commit to proofs or leaf
+// indices, so being pooled says nothing about the copy: every call must answer with an error.
+func (g *Gen) CorruptResubmit() string {
+	w, rng := g.W, g.Rng
+	if !w.V2Allowed() || w.Panicked {
+		return "skip"
+	}
+	tip := w.TipID()
+	basis := w.Tree.Blocks[tip].Parent
+	if basis == 0 || !w.Applied[basis] || w.Tree.Blocks[basis].Height+1 < w.Net.N.HardforkV2.AllowHeight {
+		return "skip"
+	}
+	// a coin that exists at the basis and at the tip and that the pool does not spend
+	spent := w.spentByPool()
+	var cands []Coin
+	for _, c := range w.CoinsOf(w.LedgerAt(basis), w.Tree.Blocks[basis].Height+1) {
+		if _, still := w.Led.SC[c.ID]; still && !spent[c.ID] && c.Value.Cmp(types.Siacoins(3)) >= 0 && len(c.Elem.StateElement.MerkleProof) > 0 {
+			cands = append(cands, c)
+		}
+	}
+	if len(cands) == 0 {
+		return "skip"
+	}
+	orig := w.SpendV2(w.Node.CM.TipState(), []Coin{cands[rng.Intn(len(cands))]}, 1, g.Fee(), 0) // proofs as of the basis
+	if g.AddV2(basis, []types.V2Transaction{orig}, nil, "stale-basis", -1, false) != "ok" {
+		return "skip"
+	}
+	for _, api := range []string{"update", "add", "tset"} {
+		bad := []types.V2Transaction{orig.DeepCopy()}
+		how, ok := CorruptProof(rng, bad)
+		if !ok {
+			return "skip"
+		}
+		switch api {
+		case "update":
+			if _, accepted := w.Update(basis, tip, bad, "pooled-id-corrupt-"+how); accepted {
+				w.C.Oracle("updatev2transactionset-accepts-corrupt-proof-of-pooled-id", "UpdateV2TransactionSet %d -> %d accepted a copy of a pooled transaction with a %s (as of the claimed basis) and returned it", basis, tip, how)
+			}
+		case "add":
+			if res := g.AddV2(basis, bad, nil, "pooled-id-corrupt-"+how, 0, false); res != "err" && res != "panic" && res != "skipped" {
+				w.C.Oracle("addv2pooltransactions-accepts-corrupt-proof-of-pooled-id", "AddV2PoolTransactions(basis %d) answered %s for a copy of a pooled transaction with a %s as of the claimed basis", basis, res, how)
+			}
+		default:
+			w.ExpectTSetOK = false
+			if _, accepted := w.TSet(basis, bad[0], "pooled-id-corrupt-"+how); accepted {
+				w.C.Oracle("v2transactionset-accepts-corrupt-proof-of-pooled-id", "V2TransactionSet(basis %d) accepted a copy of a pooled transaction with a %s as of the claimed basis", basis, how)
+			}
+		}
+		if w.Panicked {
+			break
+		}
+	}
+	return "corrupt-resubmit"
+}
+
 // Step performs one generated action.
 func (g *Gen) Step() string {
 	w, rng := g.W, g.Rng
@@ -784,7 +875,18 @@ func (g *Gen) Step() string {
 				set = append(set, types.Transaction{})
 			}
 			set[k] = w.SpendV1(cs, []Coin{taken[rng.Intn(len(taken))]}, 1, g.Fee(), 0)
-			g.AddV1(set, nil, "pool-conflict", k, false)
+			kind := "pool-conflict"
+			if known := g.StandaloneV1(); len(known) > 0 && rng.Bool() {
+				// already pooled transactions in front of the conflicting one (they are skipped by the
+				// loop, not appended: the rollback must not count them)
+				nk := 1 + rng.Intn(min(2, len(known)))
+				pre := append([]types.Transaction(nil), known[len(known)-nk:]...)
+				at := rng.Intn(k + 1)
+				set = append(append(append([]types.Transaction(nil), set[:at]...), pre...), set[at:]...)
+				k += nk
+				kind = "known-before-pool-conflict"
+			}
+			g.AddV1(set, nil, kind, k, false)
 			return "conflict-v1"
 		}
 		if !w.V2Allowed() {
@@ -796,7 +898,16 @@ func (g *Gen) Step() string {
 			set = append(set, types.V2Transaction{})
 		}
 		set[k] = w.SpendV2(cs, []Coin{taken[rng.Intn(len(taken))]}, 1, g.Fee(), 0)
-		g.AddV2(tip, set, nil, "pool-conflict", k, false)
+		kind := "pool-conflict"
+		if known := g.StandaloneV2(); len(known) > 0 && rng.Bool() {
+			nk := 1 + rng.Intn(min(2, len(known)))
+			pre := known[len(known)-nk:]
+			at := rng.Intn(k + 1)
+			set = append(append(append([]types.V2Transaction(nil), set[:at]...), pre...), set[at:]...)
+			k += nk
+			kind = "known-before-pool-conflict"
+		}
+		g.AddV2(tip, set, nil, kind, k, false)
 		return "conflict-v2"
 	case a < 58: // invalid at position k
 		n := 1 + rng.Intn(4)
@@ -858,6 +969,9 @@ func (g *Gen) Step() string {
 	case a < 66: // stale or unknown basis (v2)
 		if !w.V2Allowed() {
 			return "skip"
+		}
+		if rng.Chance(1, 4) {
+			return g.CorruptResubmit()
 		}
 		if rng.Chance(1, 4) {
 			set := g.FreshV2(1, false, w.FreeCoins())
